@@ -40,6 +40,8 @@ ASSUME = [
     "model limits of the Coq validator (explain Coq-valid / libxml2-invalid disagreements): pattern facets other than the percentage and universal-measure ones are not judged (ST_Guid, chart percent patterns, content-type grammar); xsd:dateTime, anyURI, ID, token are plain strings; no identity constraints; wildcard children without a global declaration are skipped even under processContents=strict; white space around attribute values is not collapsed",
     "children typed by schemas that are not loaded (dc:, dcterms: in core properties) are skipped by the Coq validator",
     "mutation tracing sees BaseOxmlElement subclasses only (unregistered tags are plain lxml elements)",
+    "constructor-style arguments (geometry of add_*, rows/cols, chart type, image) are drawn from their documented domains (left/top in -27273042329600..27273042316900, width/height in 0..27273042316900, boundaries included); a deliberately out-of-domain value is kept only to exercise the rejected-call clause: when the call raises, every part must be as valid as before (signature <op>:rejected|...); when the library silently accepts it the call is outside the property's quantifier and is only counted (out_of_domain_accepted). Setter assignments keep their full out-of-domain stream.",
+    "new errors are judged against every error class the part has shown earlier in the run (libxml2 does not descend below an element whose content model is violated, so errors can be masked temporarily)",
 ]
 
 KIND = {1: "content", 2: "undeclared-attr", 3: "attr-value", 4: "required-attr", 5: "text", 6: "type", 7: "root"}
@@ -351,6 +353,47 @@ def g_len(rng, p_bad=0.1):
     if r < 0.5:
         return rng.choice(LENGTHS)
     return rng.randint(0, 9144000)
+
+
+CMIN, CMAX = -27273042329600, 27273042316900      # ST_Coordinate / ST_PositiveCoordinate (EMU)
+_OOD = []                                           # set by the generators below when they leave the documented domain
+
+
+def g_pos(rng, p_ood=0.06):
+    """left / top: any int of the documented Length domain; rarely an out-of-domain value"""
+    r = rng.random()
+    if r < p_ood:
+        _OOD.append(1)
+        return enc_val(rng.choice(BAD + [CMAX + 1, CMIN - 1, 10 ** 15]))
+    if r < 0.30:
+        return rng.choice([CMIN, CMAX, 0, 1, -1, -914400, 2147483647, 2147483648, -2147483649])
+    if r < 0.40:
+        return rng.randint(CMIN, CMAX)
+    return rng.randint(-914400, 9144000)
+
+
+def g_ext(rng, p_ood=0.06):
+    """width / height: any int in 0..CMAX; rarely an out-of-domain value"""
+    r = rng.random()
+    if r < p_ood:
+        _OOD.append(1)
+        return enc_val(rng.choice(BAD + [CMAX + 1, -914400, -1, 10 ** 15]))
+    if r < 0.30:
+        return rng.choice([0, 1, CMAX, 12700, 2147483647, 2147483648])
+    if r < 0.40:
+        return rng.randint(0, CMAX)
+    return rng.randint(0, 9144000)
+
+
+def g_geom(rng):
+    return [g_pos(rng), g_pos(rng), g_ext(rng), g_ext(rng)]
+
+
+def g_enum_arg(rng, cls, p_ood=0.06):
+    if rng.random() < p_ood:
+        _OOD.append(1)
+        return enc_val(rng.choice(BAD))
+    return enc_enum(rng.choice(list(cls)))
 
 
 def g_bool3(rng):
@@ -730,12 +773,20 @@ def chart_data_args(rng):
     from pptx.chart.xmlwriter import ChartXmlWriter  # noqa
     members = list(ec.XL_CHART_TYPE)
     ct = rng.choice(members)
+    ood = False
+    try:
+        from pptx.chart.data import CategoryChartData
+        ChartXmlWriter(ct, CategoryChartData())
+    except NotImplementedError:
+        ood = True          # a chart type the library documents as not supported
+    except Exception:  # noqa
+        pass
     ncat, nser = rng.choice([0, 1, 2, 3, 5]), rng.choice([0, 1, 1, 2, 3])
     kind = rng.choice(["str", "str", "num", "date", "multi"])
     vals = [[rng.choice([None, 0, 1, -2.5, 3.25, 1e10, 7]) for _ in range(ncat)] for _ in range(nser)]
     return {"type": ct.name, "ncat": ncat, "nser": nser, "cats": kind, "vals": vals,
             "names": [rng.choice(["S", "Series <&> \"q\"", "", "é"]) + str(i) for i in range(nser)],
-            "number_format": rng.choice([None, "General", "0.00", '#,##0 "x"'])}
+            "number_format": rng.choice([None, "General", "0.00", '#,##0 "x"']), "ood": ood}
 
 
 def build_chart_data(a):
@@ -787,33 +838,44 @@ def gen_op(rng, nslides_hint):
                            "add_chart", "add_chart", "add_movie", "add_ole", "add_slide", "ph_insert", "ph_insert", "connect", "merge",
                            "replace_data", "group_existing"])
         op = {"kind": kind, "s": s, "k": k}
+        del _OOD[:]
         if kind == "add_shape":
-            op["args"] = [pick_enum(rng, es.MSO_SHAPE, 0.05)] + [g_len(rng, 0.05) for _ in range(4)]
-        elif kind in ("add_textbox", "add_table"):
-            op["args"] = ([rng.choice([1, 2, 3, 0, -1, 6]), rng.choice([1, 2, 4, 0])] if kind == "add_table" else []) + [g_len(rng, 0.05) for _ in range(4)]
+            op["args"] = [g_enum_arg(rng, es.MSO_SHAPE)] + g_geom(rng)
+        elif kind == "add_textbox":
+            op["args"] = g_geom(rng)
+        elif kind == "add_table":
+            rc = [rng.choice([1, 2, 3, 6]), rng.choice([1, 2, 4])]
+            if rng.random() < 0.08:
+                _OOD.append(1)
+                rc = [rng.choice([0, -1, 2.5, None, "2"]), rng.choice([0, 1, -3])]
+            op["args"] = rc + g_geom(rng)
         elif kind == "add_picture":
-            op["img"] = rng.choice(["png", "jpg", "gif", "png", "notimage"])
-            op["args"] = [g_len(rng, 0.05), g_len(rng, 0.05)] + rng.choice([[], [g_len(rng, 0.05)], [g_len(rng), g_len(rng)]])
+            op["img"] = rng.choice(["png", "jpg", "gif", "png"])
+            if rng.random() < 0.06:
+                _OOD.append(1)
+                op["img"] = "notimage"
+            op["args"] = [g_pos(rng), g_pos(rng)] + rng.choice([[], [g_ext(rng)], [g_ext(rng), g_ext(rng)]])
         elif kind == "add_connector":
-            op["args"] = [pick_enum(rng, es.MSO_CONNECTOR, 0.1)] + [g_len(rng, 0.05) for _ in range(4)]
+            # begin_x, begin_y, end_x, end_y: four coordinates
+            op["args"] = [g_enum_arg(rng, es.MSO_CONNECTOR)] + [g_pos(rng) for _ in range(4)]
         elif kind == "add_freeform":
             op["start"] = [rng.randint(-100, 1000), rng.randint(-100, 1000)]
             op["scale"] = rng.choice([1.0, 100.0, 0.5, [2.0, 3.0]])
             op["segs"] = [[[rng.randint(-500, 2000), rng.randint(-500, 2000)] for _ in range(rng.randint(0, 4))] for _ in range(rng.randint(0, 2))]
             op["close"] = rng.random() < 0.5
-            op["origin"] = [g_len(rng, 0.05), g_len(rng, 0.05)]
+            op["origin"] = [g_pos(rng), g_pos(rng)]
         elif kind == "add_chart":
             op["data"] = chart_data_args(rng)
-            op["args"] = [g_len(rng, 0.03) for _ in range(4)]
+            op["args"] = g_geom(rng)
         elif kind == "replace_data":
             op["data"] = chart_data_args(rng)
         elif kind == "add_movie":
-            op["args"] = [g_len(rng, 0.05) for _ in range(4)]
+            op["args"] = g_geom(rng)
             op["poster"] = rng.choice([None, "png", "jpg"])
             op["mime"] = rng.choice(["video/mp4", "video/unknown", "video/x-msvideo"])
         elif kind == "add_ole":
-            op["prog"] = rng.choice([enc_enum(m) for m in es.PROG_ID] + ["Foo.Bar.1", ""])
-            op["args"] = [g_len(rng, 0.05), g_len(rng, 0.05)] + rng.choice([[], [g_len(rng), g_len(rng)]])
+            op["prog"] = rng.choice([enc_enum(m) for m in es.PROG_ID] + ["Foo.Bar.1", "Word.Document.12"])
+            op["args"] = [g_pos(rng), g_pos(rng)] + rng.choice([[], [g_ext(rng), g_ext(rng)]])
             op["icon"] = rng.choice([None, "png"])
         elif kind == "add_slide":
             op["layout"] = rng.randint(0, 30)
@@ -821,7 +883,10 @@ def gen_op(rng, nslides_hint):
             op["what"] = rng.choice(["picture", "chart", "table"])
             op["img"] = rng.choice(["png", "jpg"])
             op["data"] = chart_data_args(rng)
-            op["rc"] = [rng.choice([1, 2, 3, 0]), rng.choice([1, 2, 0])]
+            op["rc"] = [rng.choice([1, 2, 3]), rng.choice([1, 2])]
+            if rng.random() < 0.08:
+                _OOD.append(1)
+                op["rc"] = [rng.choice([0, -1, None]), rng.choice([0, 1])]
         elif kind == "connect":
             op["j"] = rng.randint(0, 50)
             op["site"] = rng.choice([0, 1, 2, 3, 4, 9, -1])
@@ -831,6 +896,10 @@ def gen_op(rng, nslides_hint):
             op["b"] = [rng.randint(0, 3), rng.randint(0, 3)]
         elif kind == "group_existing":
             op["n"] = rng.randint(0, 3)
+        if (kind == "add_chart" or (kind == "ph_insert" and op["what"] == "chart")) and op["data"].get("ood"):
+            _OOD.append(1)
+        if _OOD:
+            op["ood"] = True      # a constructor-style argument outside its documented domain
         return op
     if r < 0.42:
         sel, meth, g = rng.choice(CALLS_T)
@@ -925,7 +994,9 @@ def exec_op(prs, op):
         else:
             getattr(obj, m)(*a)
         return "ok"
-    cont = pick(sel_containers(slide), k)[1]()
+    cand = pick(sel_containers(slide), k)
+    cont = cand[1]()
+    op["via"] = cand[0]
     a = [dec(x) for x in op.get("args", [])]
     if kind == "add_shape":
         cont.add_shape(*a)
@@ -950,6 +1021,7 @@ def exec_op(prs, op):
     elif kind == "add_table":
         if not hasattr(cont, "add_table"):
             cont = slide.shapes
+            op["via"] = "slide.shapes"
         cont.add_table(*a)
     elif kind == "add_chart":
         ec = _enums()[0]
@@ -963,9 +1035,12 @@ def exec_op(prs, op):
         ch.replace_data(build_chart_data(d))
     elif kind == "add_movie":
         sh = slide.shapes
+        op["via"] = "slide.shapes"
         sh.add_movie(blob("movie"), *a, poster_frame_image=blob(op["poster"]) if op["poster"] else None, mime_type=op["mime"])
     elif kind == "add_ole":
         sh = cont if hasattr(cont, "add_ole_object") else slide.shapes
+        if sh is not cont:
+            op["via"] = "slide.shapes"
         extra = a[2:] if len(a) > 2 else []
         sh.add_ole_object(blob("ole"), dec(op["prog"]), a[0], a[1], *extra, icon_file=blob(op["icon"]) if op["icon"] else None)
     elif kind == "ph_insert":
@@ -1115,7 +1190,11 @@ def run_sequence(V, snap, deck, ops, rng=None, nops=0, record=None):
     prs = open_deck(deck)
     cur = snap.take(prs)
     base = dict(cur)
-    events, outcomes, done, mutated = [], [], [], []
+    # error classes ever seen per part in this run: libxml2 does not descend below an element whose
+    # content model is violated, so an error can be masked for a while and must not count as new
+    # when it shows again
+    seen = {n: set(map(tuple, snap.lx.get(h) or [])) for n, h in cur.items()}
+    events, outcomes, done, mutated, ood_acc, exc_funcs = [], [], [], [], [], []
     i = 0
     while True:
         if ops is not None:
@@ -1126,18 +1205,31 @@ def run_sequence(V, snap, deck, ops, rng=None, nops=0, record=None):
             if i >= nops:
                 break
             op = gen_op_live(rng, prs)
+        funcs = ()
         try:
             out = exec_op(prs, op)
         except Exception as e:  # noqa
             out = "exc:" + type(e).__name__
+            funcs = tuple(fs.name for fs in traceback.extract_tb(e.__traceback__))
         done.append(op)
         outcomes.append(out)
+        exc_funcs.append(funcs)
         nxt = snap.take(prs)
+        # a constructor-style call given an argument outside its documented domain and NOT rejected is
+        # outside the property's quantifier: counted, never blamed (the rejected-call clause applies
+        # only when the call raises)
+        silent_ood = bool(op.get("ood")) and not out.startswith("exc:") and out != "skip"
+        if silent_ood:
+            ood_acc.append(op_name(op))
         for name, h in nxt.items():
             old = cur.get(name)
             if old == h:
                 continue
-            ne = new_errors(snap.lx.get(old) if old else [], snap.lx.get(h))
+            if silent_ood:
+                seen.setdefault(name, set()).update(map(tuple, snap.lx.get(h) or []))
+                continue
+            ne = [e for e in new_errors(snap.lx.get(old) if old else [], snap.lx.get(h)) if e not in seen.get(name, ())]
+            seen.setdefault(name, set()).update(map(tuple, snap.lx.get(h) or []))
             if ne:
                 events.append((i, name, ne, h))
         if out.startswith("exc:") and nxt != cur:
@@ -1145,6 +1237,7 @@ def run_sequence(V, snap, deck, ops, rng=None, nops=0, record=None):
         cur = nxt
         i += 1
     res = {"deck": deck, "ops": done, "outcomes": outcomes, "events": events, "mutated_after_exception": mutated,
+           "ood_accepted": ood_acc, "exc_funcs": exc_funcs,
            "final": cur, "base": base}
     if record is not None:
         record["prs"] = prs
@@ -1181,11 +1274,16 @@ def final_save_check(V, prs):
     return bad
 
 
-def shrink(V, snap, deck, ops, want):
-    """delta debugging: a minimal subsequence after which error class `want` newly appears"""
+def shrink(V, snap, deck, ops, want, sig=None):
+    """delta debugging: a minimal subsequence after which error class `want` newly appears (under the
+    same signature, when one is given)"""
     def fails(sub):
-        r = run_sequence(V, snap, deck, sub)
-        return any(tuple(want) in [tuple(x) for x in ne] for _i, _n, ne, _h in r["events"])
+        r = run_sequence(V, snap, deck, [dict(o) for o in sub])
+        for i, _n, ne, _h in r["events"]:
+            for x in ne:
+                if tuple(x) == tuple(want) and (sig is None or base_sig(r, i, x)[0] == sig):
+                    return True
+        return False
 
     cur = list(ops)
     n = 2
@@ -1214,6 +1312,11 @@ def _worker_init():
     init_tables()
     _W["V"] = Validators()
     _W["snap"] = Snap(_W["V"])
+    try:
+        _W["known_sigs"] = {e.get("signature") for e in json.load(open(os.environ.get("VERIF_KF") or os.path.join(VERIF, "known_findings.json")))
+                            if e.get("property") == "C03" and e.get("status") == "known"}
+    except Exception:  # noqa
+        _W["known_sigs"] = set()
     _W["tracer"] = Tracer()
     _W["tracer"].install()
 
@@ -1231,20 +1334,39 @@ def _worker(job):
         return {"idx": idx, "deck": deck, "crash": traceback.format_exc()[-1500:]}
     found = []
     seen = set()
+    overflow_candidates = []
     for (j, name, ne, h) in r["events"]:
         for e in ne:
-            sig = "%s|%s|%s" % (sig_op(r["ops"][j], e), e[0], e[1].split("/@")[0] if e[0] == "attr-value" else e[1])
+            sig, cand_over = base_sig(r, j, e)
             if sig in seen:
                 continue
             seen.add(sig)
+            if cand_over:
+                overflow_candidates.append(len(found))
             found.append({"sig": sig, "op_index": j, "part": name, "error": list(e), "outcome": r["outcomes"][j]})
-    # shrink each distinct signature of this sequence
+    # shrink each distinct signature of this sequence (the minimal sequence must show the SAME signature)
     for f in found:
         try:
-            mini = shrink(V, snap, deck, r["ops"][: f["op_index"] + 1], f["error"])
+            mini = shrink(V, snap, deck, r["ops"][: f["op_index"] + 1], f["error"], f["sig"])
         except Exception:  # noqa
             mini = r["ops"][: f["op_index"] + 1]
         f["min_ops"] = mini
+    for idx_f in overflow_candidates:
+        f = found[idx_f]
+        if any(o.get("ood") for o in f["min_ops"]):
+            continue
+        try:
+            _part, msgs, _frag, _oc = find_part_for(V, snap, deck, f["min_ops"], f["error"])
+        except Exception:  # noqa
+            msgs = []
+        vals = []
+        for m in msgs:
+            mm = re.search(r"(?:value |': )'(-?[0-9]+)'", m)
+            vals.append(int(mm.group(1)) if mm else None)
+        lo = 0 if f["error"][1].startswith("a:ext") else CMIN
+        if vals and all(v is not None and (v < lo or v > CMAX) for v in vals):
+            # every argument in its documented domain, the WRITTEN value outside the coordinate range
+            f["sig"] = f["sig"].replace(":rejected|", ":rejected-in-group|") + "|derived-overflow"
     save_bad = []
     try:
         save_bad = final_save_check(V, rec["prs"])
@@ -1274,9 +1396,31 @@ def _worker(job):
     _W["counted"] = _W.get("counted", 0) + nsnap
     base_bad = {n: [list(x) for x in snap.lx.get(h) or []] for n, h in r["base"].items() if snap.lx.get(h)}
     return {"idx": idx, "deck": deck, "ops": r["ops"], "outcomes": r["outcomes"], "found": found, "save_new": save_new,
-            "mutated": r["mutated_after_exception"], "disagreements": dis, "nsnap": nsnap, "base_bad": base_bad,
+            "mutated": r["mutated_after_exception"], "ood_accepted": r["ood_accepted"], "disagreements": dis, "nsnap": nsnap, "base_bad": base_bad,
             "sites": dict(_W["tracer"].sites), "nparts": len(r["final"]),
             "changed": sum(1 for n, h in r["final"].items() if r["base"].get(n) != h)}
+
+
+def base_sig(r, j, e):
+    """signature of one event of a run: (operation kind[:qualifier] | error class | element tag);
+    second component: candidate for the derived-overflow refinement (decided on the written value)"""
+    opj, outj = r["ops"][j], r["outcomes"][j]
+    opk = sig_op(opj, e)
+    tagp = e[1].split("/@")[0] if e[0] == "attr-value" else e[1]
+    sig = "%s|%s|%s" % (opk, e[0], tagp)
+    kd = opj["kind"]
+    ctor = kd.startswith("add_") or kd in ("ph_insert", "group_existing")
+    geom = e[0] == "attr-value" and tagp in ("a:off", "a:ext")
+    if ctor and outj.startswith("exc:") and sig not in _W.get("known_sigs", ()):
+        # a constructor-style call that raised AFTER it had changed the tree
+        by_group = (outj in ("exc:ValueError", "exc:TypeError") and opj.get("via") == "group.shapes" and geom
+                    and any("recalculate_extents" in fn for fn in r["exc_funcs"][j]))
+        if by_group and opj.get("ood"):
+            return "%s:rejected-in-group|%s|%s" % (opk, e[0], tagp), False
+        return "%s:rejected|%s|%s" % (opk, e[0], tagp), bool(by_group and not opj.get("ood"))
+    if ctor and not outj.startswith("exc:") and geom and not opj.get("ood"):
+        return sig, True
+    return sig, False
 
 
 def find_part_for(V, snap, deck, ops, want):
@@ -1589,6 +1733,7 @@ def run(ck, tier, rng):
     base_bad = {}
     mutated = {}
     save_new = {}
+    ood_accepted = {}
     for r in results:
         if "crash" in r:
             ck.violation("harness-sequence-crash", "sequence %d on %s crashed the harness: %s" % (r["idx"], r["deck"], r["crash"][-300:]),
@@ -1610,6 +1755,8 @@ def run(ck, tier, rng):
                 dis_bad.append((r["deck"], d))
         for n, cl in r["base_bad"].items():
             base_bad.setdefault(r["deck"], {})[n] = cl
+        for nm in r.get("ood_accepted", []):
+            ood_accepted[nm] = ood_accepted.get(nm, 0) + 1
         for (i, nm, outc) in r["mutated"]:
             mutated["%s %s" % (nm, outc)] = mutated.get("%s %s" % (nm, outc), 0) + 1
         for m, cl in r["save_new"]:
@@ -1665,7 +1812,7 @@ def run(ck, tier, rng):
                "correspondence_parts_compared": sum(r.get("nsnap", 0) for r in results),
                "correspondence_diffs": len(dis_bad), "correspondence_explained_by_model_limits": dis_expl,
                "preexisting_invalid_parts": {d: v for d, v in sorted(base_bad.items())},
-               "mutated_after_exception": mutated,
+               "mutated_after_exception": mutated, "out_of_domain_accepted": ood_accepted,
                "mutation_sites_seen": sorted(sites), "direct_set_sites": sorted(set_sites), "direct_remove_sites": sorted(rem_sites),
                "decl_rows": len(meta["decls"]), "attr_rows": len(meta["adecls"]), "attr_rows_not_judged": len(diag["attr_nj"]),
                "observed_findings": sorted(findings), "exhaustive": False,
